@@ -74,11 +74,20 @@ def prog(env, case):
     weights = {'F': [(f1, w1), (f2, w2)]}
     if case.get('nested'):
         w3, w4 = env.real("w3"), env.real("w4")
-        H = F + w3 * f1
-        K = w4 * F
+        variant = case.get('nested_variant', 0)
+        if variant == 0:
+            H = F + w3 * f1
+            K = w4 * F
+            weights['H'] = [(f1, w1 + w3), (f2, w2)]
+            weights['K'] = [(f1, w4 * w1), (f2, w4 * w2)]
+        else:
+            # the other operators of the function algebra: subtraction, negation, division by a scalar
+            env.assume(env.neg(env.eq(w4, 0)))
+            H = F - w3 * f1
+            K = (-F) / w4
+            weights['H'] = [(f1, w1 - w3), (f2, w2)]
+            weights['K'] = [(f1, -w1 / w4), (f2, -w2 / w4)]
         fns += [('H', H), ('K', K)]
-        weights['H'] = [(f1, w1 + w3), (f2, w2)]
-        weights['K'] = [(f1, w4 * w1), (f2, w4 * w2)]
     x0, x1 = Point(), Point()
     pts = [('x0', x0), ('x1', x1)]
     if case.get('twin_only'):
@@ -208,6 +217,9 @@ def cases(tier):
             cs.append(dict(id="len3-first%02d" % first, length=3, forced=[first]))
         for first in range(n_alpha):
             cs.append(dict(id="twin3-first%02d" % first, length=3, forced=[first], twin_only=True))
+        n_nest = 2 * 5 * 2 + 5
+        for first in range(n_nest):
+            cs.append(dict(id="sub2-first%02d" % first, length=2, forced=[first], nested=True, nested_variant=1))
     else:
         for first in range(n_alpha):
             for second in range(n_alpha + 1):
@@ -215,6 +227,9 @@ def cases(tier):
         n_ext = 3 * 5 * 3 + 5
         for first in range(n_ext):
             cs.append(dict(id="ext3-first%02d" % first, length=3, forced=[first], nested=True, twin=True, extended=True))
+        n_nest = 2 * 5 * 2 + 5
+        for first in range(n_nest):
+            cs.append(dict(id="sub3-first%02d" % first, length=3, forced=[first], nested=True, nested_variant=1))
     return cs
 
 
